@@ -94,6 +94,31 @@ def _tied_skeletons(tier):
     a = g.fc(x, 'fc1', bias=False, w_idx=w1)
     g.output(g.fc(a, 'y', bias=False, w_idx=w2))
     return mb.build()
+  def tied_bias(two_subgraphs):
+    # one bias buffer read by two FULLY_CONNECTED ops with their own weights
+    # and inputs (its int32 form depends on input scale x weight scale)
+    mb = skeletons.ModelBuilder()
+    g = mb.subgraph('g1')
+    x = g.input('x', (1, 2))
+    a = g.fc(x, 'fc1')
+    b1 = g.sg.operators[-1].inputs[2]
+    buf = g.sg.tensors[b1].buffer
+    if two_subgraphs:
+      g.output(a)
+      g2 = mb.subgraph('g2')
+      x2 = g2.input('x2', (1, 2))
+      y = g2.fc(g2.unary('TANH', x2, 't2'), 'fc2')
+      g2.sg.tensors[g2.sg.operators[-1].inputs[2]].buffer = buf
+      g2.output(y)
+      mb.signature('first', g, ['x'], ['y'])
+      mb.signature('second', g2, ['x'], ['y'])
+    else:
+      y = g.fc(g.unary('TANH', a, 't'), 'fc2')
+      g.sg.tensors[g.sg.operators[-1].inputs[2]].buffer = buf
+      g.output(y)
+    return mb.build()
+  out['bias_buffer_shared_by_two_ops'] = tied_bias(False)
+  out['bias_buffer_shared_two_subgraphs'] = tied_bias(True)
   out['buffer_shared_by_two_shapes'] = two_shapes()
   out['float_bias_and_int_shape_one_buffer'] = float_int_tie(False)
   out['float_bias_and_int_shape_two_subgraphs'] = float_int_tie(True)
@@ -137,10 +162,17 @@ def recipes_for(model_bytes):
     if not rules:
       continue
     fam['+'.join(modes)] = rules
+  # one global rule for the whole model (every op, INPUT/OUTPUT included,
+  # resolves to the same setting)
+  import json, os
+  for f in ('default_a8w8_recipe.json', 'default_a16w8_recipe.json',
+            'dynamic_wi8_afp32_recipe.json'):
+    with open(os.path.join(P.RECIPE_DIR, f)) as fh:
+      fam['global:' + f.split('_recipe')[0]] = json.load(fh)
   return fam
 
 
-def shared_constant_problems(inp, out):
+def shared_constant_problems(inp, out, sym=None):
   """Byte-level consistency of every constant of the output model."""
   pr = []
   # original float constants by (subgraph, tensor index)
@@ -154,7 +186,8 @@ def shared_constant_problems(inp, out):
       raw = oracles.buffer_bytes(out, t1)
       nm = oracles.tname(t0)
       if not isinstance(raw, (bytes, bytearray)):
-        pr.append(f'constant {nm!r}: symbolic bytes in a concrete-constant run')
+        # contents that depend on the symbolic statistics (a quantized
+        # bias): their byte-level law is C05's; sharers' agreement is below
         continue
       if t1.type not in decoder.ITEMSIZE and t1.type != TT.INT4:
         pr.append(f'constant {nm!r}: unexpected type {t1.type}')
@@ -182,6 +215,13 @@ def shared_constant_problems(inp, out):
         if q is None or q.scale is None or len(q.scale) == 0:
           pr.append(f'constant {nm!r}: integer type {t1.type} without '
                     'quantization parameters')
+          continue
+        from symx.symnp import SymArray as _SA
+        if any(isinstance(x, _SA) and not x.is_concrete()
+               for x in list(q.scale) + list(q.zeroPoint)):
+          # parameters that depend on the symbolic statistics (a bias): the
+          # byte-level decode of symbolic contents is C05's; the agreement of
+          # the sharers is decided below as a formula
           continue
         sc = np.array([float(np.asarray(x)) for x in q.scale])
         zp = np.array([int(np.asarray(x)) for x in q.zeroPoint])
@@ -229,16 +269,23 @@ def shared_constant_problems(inp, out):
   for (b, _), ts in by_buf.items():
     if len(ts) < 2:
       continue
-    def key(t):
-      q = t.quantization
-      if q is None or q.scale is None:
-        return (t.type, None)
-      return (t.type, tuple(float(np.asarray(x)) for x in q.scale),
-              tuple(int(np.asarray(x)) for x in q.zeroPoint),
-              q.quantizedDimension)
-    k0 = key(ts[0])
+    from props import c19 as _c19
     for t in ts[1:]:
-      if key(t) != k0:
+      qa, qb = ts[0].quantization, t.quantization
+      ha = qa is not None and qa.scale is not None
+      hb = qb is not None and qb.scale is not None
+      same = (t.type == ts[0].type and ha == hb)
+      if same and ha:
+        same = (qa.quantizedDimension or 0) == (qb.quantizedDimension or 0)
+        for f1, f2 in ((qa.scale, qb.scale), (qa.zeroPoint, qb.zeroPoint)):
+          r = _c19._qeq(f1, f2) if same else False
+          if r is False:
+            same = False
+          elif r is not True and sym is not None:
+            sym.append(r)
+          elif r is not True:
+            same = False
+      if not same:
         pr.append(f'buffer {b}: tensors {oracles.tname(ts[0])!r} and '
                   f'{oracles.tname(t)!r} disagree on dtype/parameters for the '
                   'same bytes')
@@ -250,9 +297,15 @@ def oracle(e, out):
     e.check('C15.rejected', True)
     return
   e.reach('returned_model')
-  pr = shared_constant_problems(out.input_model, out.model)
+  sym = []
+  pr = shared_constant_problems(out.input_model, out.model, sym)
   pr += oracles.modes(out.input_model, out.model, P.resolver(out))
   e.check('C15.shared_constant_consistent', not pr, info=pr[:4])
+  if sym:
+    import z3
+    e.check('C15.sharers_agree_on_parameters', z3.And(*sym),
+            info=['parameters of tensors on one buffer differ for some '
+                  'statistics'])
 
 
 def job_tied(job):
